@@ -527,9 +527,8 @@ class Volume:
             units += list(struct.unpack("<13H", s[1:11] + s[14:26] + s[28:32]))
         if 0 in units:
             units = units[:units.index(0)]
-        else:
-            while units and units[-1] == 0xFFFF:
-                units.pop()
+        # no terminator: the name fills its slots; 0xFFFF units are then part of what a specification-following
+        # reader (e.g. Linux vfat) sees — they are NOT stripped here, a set padded without a terminator reads differently
         try:
             return struct.pack("<%dH" % len(units), *units).decode("utf-16-le")
         except UnicodeDecodeError:
